@@ -165,6 +165,12 @@ type Engine struct {
 	CompactionPlan CompactionPlanner
 	FileStore      *FileStore
 
+	// pendingSnapshot is the cache snapshot most recently handed out by Cache.Snapshot and
+	// pendingSegments are the WAL segments that were closed when it was taken. A snapshot whose
+	// write failed is handed out again unchanged, and then covers only these segments.
+	pendingSnapshot *Cache
+	pendingSegments []string
+
 	MaxPointsPerBlock int
 
 	// CacheFlushMemorySizeThreshold specifies the minimum size threshold for
@@ -1943,6 +1949,14 @@ func (e *Engine) WriteSnapshot() (err error) {
 		snapshot, err = e.Cache.Snapshot()
 		if err != nil {
 			return
+		}
+
+		// A snapshot whose write failed earlier is returned again as it was: writes made since
+		// then are only in the live cache, so the segments closed since then must be kept.
+		if snapshot == e.pendingSnapshot {
+			segments = e.pendingSegments
+		} else {
+			e.pendingSnapshot, e.pendingSegments = snapshot, segments
 		}
 
 		return
